@@ -1,5 +1,5 @@
 """C06 - disjunction, if-then-else and negation follow standard semantics."""
-from lib import semcheck, progs, progs_r4
+from lib import semcheck, progs, progs_r4, progs_r5
 from lib.semcheck import impl, model_expr, oracle, describe, shrink, IMPORTS
 
 ID = 'C06'
@@ -55,6 +55,10 @@ def gen(rng, tier):
         cases.append(progs_r4.gen_limit_body_program(rng, cuts=False))
     cases.extend(progs_r4.exhaustive_neg_builtin_cases())
     cases.extend(progs_r4.exhaustive_local_cut3_cases(tier != 'quick'))
+    # round 5: a cut in the branch of an if-then-else / disjunction that is not taken on some calls, to the left of alternatives that must
+    # then still be tried (enclosing disjunction with and without continuation, later clauses, the caller's alternatives): lib/progs_r5.py
+    for _ in range(50 if tier == 'quick' else 600):
+        cases.append(progs_r5.gen_untaken_cut_program(rng))
     return cases
 
 def builtin_corpus():
